@@ -455,6 +455,13 @@ def check_topup(rec, text, ignore, viol, counts, classes):
                     classes.append("topup-needed")
                     if got[0][0] not in [w[0] for w in where.values()]:
                         viol.append({"cls": "topup-atom-invented", "msg": "conformation %s: atom %r has coordinates %r found in no conformation" % (n, ident, got[0][0])})
+                    else:
+                        # ... from the earliest conformation (in the order of the conformation names) that holds the atom
+                        # in a residue of the right type
+                        donors = [cn for cn in names if cn in where and (mine is None or where[cn][1] in mine)]
+                        if donors and got[0][0] != where[donors[0]][0] and len({w[0] for w in where.values()}) > 1:
+                            viol.append({"cls": "topup-takes-a-later-donor", "msg": "conformation %s: atom %r was completed with the position it has in another conformation than %s, the earliest that holds it" % (
+                                n, ident, donors[0]), "res": (ident[0], ident[1])})
             elif not compatible and mine is not None:
                 # incompatible residue type: must not be copied
                 if got and any(rn not in mine for (_, rn) in got):
